@@ -18,7 +18,8 @@ from concurrent.futures import ThreadPoolExecutor
 ROOT = os.path.dirname(os.path.dirname(os.path.abspath(__file__)))
 COQ = os.path.join(ROOT, "coq")
 HARNESS = os.path.join(ROOT, "harness")
-REPO = "/repo"
+REPO = os.environ.get("VERIF_REPO", "/repo")   # a scratch worktree may be substituted for mutation testing only
+SCRATCH = REPO != "/repo"
 GOENV = dict(os.environ, GOFLAGS="-mod=mod", GOPROXY="off", GOSUMDB="off", GOTOOLCHAIN="local",
              CGO_ENABLED=os.environ.get("CGO_ENABLED", "0"))
 
@@ -204,18 +205,23 @@ def main():
     hb = meta.get("harness")
     if hb:
         with Lock(".go.lock"):
-            shutil.copyfile(os.path.join(REPO, "go.sum"), os.path.join(HARNESS, "go.sum"))
             env = dict(GOENV)
             if meta.get("cgo"): env["CGO_ENABLED"] = "1"
-            rc, out, dt = sh(["go", "build", "-tags", "verif", "-o", vh, hb], cwd=HARNESS, env=env, timeout=900)
+            if SCRATCH:
+                modfile = os.path.join(work, "go.mod")
+                open(modfile, "w").write(open(os.path.join(HARNESS, "go.mod")).read().replace("=> /repo", "=> " + REPO))
+                shutil.copyfile(os.path.join(REPO if os.path.exists(os.path.join(REPO, "go.sum")) else "/repo", "go.sum"), os.path.join(work, "go.sum"))
+                rc, out, dt = sh(["go", "build", "-modfile", modfile, "-tags", "verif", "-o", vh, hb], cwd=HARNESS, env=env, timeout=900)
+            else:
+                shutil.copyfile(os.path.join(REPO, "go.sum"), os.path.join(HARNESS, "go.sum"))
+                rc, out, dt = sh(["go", "build", "-tags", "verif", "-o", vh, hb], cwd=HARNESS, env=env, timeout=900)
         log.write("== go build (rc=%d, %.1fs)\n%s\n" % (rc, dt, out))
         if rc != 0:
             problems.append(("harness-build", "the correspondence harness no longer builds against /repo", out[-1500:]))
         else:
             def run_h(seed_, scale, outdir):
                 os.makedirs(outdir, exist_ok=True)
-                cmd = [vh, "--seed", str(seed_), "--tier", tier, "--out", outdir, "--scale", str(scale)]
-                if meta.get("gen_dir"): pass
+                cmd = [vh, "--seed", str(seed_), "--tier", tier, "--out", outdir, "--scale", str(scale), "--repo", REPO]
                 return sh(cmd, cwd=ROOT, env=GOENV, timeout=meta.get("harness_timeout", 900 if tier == "quick" else 7200))
             rc, out, dt = run_h(seed, 1, rundir)
             log.write("== harness (rc=%d, %.1fs)\n%s\n" % (rc, dt, out[-4000:]))
@@ -269,7 +275,7 @@ def main():
             k += 1
             sd = os.path.join(work, "search")
             shutil.rmtree(sd, ignore_errors=True)
-            rc, out, dt = sh([vh, "--seed", str(seed + 1000 + k), "--tier", tier, "--out", sd, "--scale", "2"],
+            rc, out, dt = sh([vh, "--seed", str(seed + 1000 + k), "--tier", tier, "--out", sd, "--scale", "2", "--repo", REPO],
                              cwd=ROOT, env=GOENV, timeout=max(30, budget))
             searched += 1
             sp = os.path.join(sd, "stats.json")
@@ -294,7 +300,7 @@ def main():
     violation = bool(failures) or bool(problems)
     replay = None
     if violation:
-        replay = os.path.join(ROOT, "replays", "%s-%d.json" % (pid, seed))
+        replay = os.path.join(work if SCRATCH else os.path.join(ROOT, "replays"), "%s-%d.json" % (pid, seed))
         json.dump({"property": pid, "seed": seed, "tier": tier,
                    "failing_inputs": failures[:10],
                    "no_longer_checks": [{"kind": k, "what": t, "detail": d} for k, t, d in problems],
@@ -334,7 +340,8 @@ def main():
     ev = {"property_id": pid, "tier": tier, "seed": seed, "level": "proof", "coverage": cov,
           "assumptions": meta.get("assumptions", []), "wall_s": round(time.time() - t0, 1),
           "violations": (len(failures) or len(problems)) if violation else 0}
-    json.dump(ev, open(os.path.join(ROOT, "evidence", pid + ".json"), "w"), indent=1, default=str)
+    evpath = os.path.join(work, "evidence.scratch.json") if SCRATCH else os.path.join(ROOT, "evidence", pid + ".json")
+    json.dump(ev, open(evpath, "w"), indent=1, default=str)
     log.close()
 
     for sig, (k, f) in sorted(known_hits.items()):
